@@ -90,6 +90,9 @@ def check_readback(ctx, backend, e, text):
     if ent.needs and not ent.needs(t):
         ctx.case(False, label="skipped:not-applicable")
         return
+    if len(t) % 2:
+        from ..observe import observe
+        observe(Y.URL(entry.BASE))
     try:
         u = ent.make(Y, t)
     except (ValueError, TypeError):
